@@ -23,12 +23,16 @@ type params struct {
 	prov   string // actorof-warm | actorof-cold | clone | parse | find
 	sender string // outside | sibling | scheduled (a sibling hands the messages to the Scheduler: Once, 1..3 ms)
 	fine   bool   // lock / atomic operations of packages actor and mailbox are switch points too (preemption inside handlers and sends)
+	one    bool   // a single message is sent: nothing that follows it can wake the mailbox on its behalf
 }
 
 func (p params) name() string {
 	n := fmt.Sprintf("state=%s/ref=%s/sender=%s", p.state, p.prov, p.sender)
 	if p.fine {
 		n += "/fine"
+	}
+	if p.one {
+		n += "/one-message"
 	}
 	return n
 }
@@ -248,7 +252,7 @@ func scenario(p params, bounds []int) *vexp.Scenario {
 					w.Sys.Tell(w.Ref("/snd"), vsys.Msg{ID: "go"})
 					return
 				}
-				for i := 1; i <= 3; i++ {
+				for i := 1; i <= 3 && !(p.one && i > 1); i++ {
 					id := fmt.Sprintf("m%d", i)
 					sent = append(sent, id)
 					w.Sys.Tell(sendRef, vsys.Msg{ID: id})
@@ -423,6 +427,13 @@ func build(tier string) []*vexp.Scenario {
 			out = append(out, vexp.Split(2, func() *vexp.Scenario {
 				return scenario(params{state: st, prov: pv, sender: "outside", fine: true}, bounds)
 			})...)
+			if (st == "fail-resume" || st == "fail-restart" || st == "fail-stop") && pv == "actorof-cold" {
+				// one single send overlapping the un-pausing (or the termination) of its target at the granularity of the mailbox's own
+				// atomics, one bound deeper: no later message can wake the mailbox on its behalf
+				out = append(out, vexp.Split(4, func() *vexp.Scenario {
+					return scenario(params{state: st, prov: pv, sender: "outside", fine: true, one: true}, []int{0, 1, 2})
+				})...)
+			}
 		}
 	}
 	return out
